@@ -1277,7 +1277,7 @@ class Executor:
 
     def expr_Dict(self, node, st):
         if any(k is None for k in node.keys):
-            raise Unsupported("dict unpacking in display")
+            return self._dict_unpack(node, st)
         outs = []
         flat = [x for kv in zip(node.keys, node.values) for x in kv]
         for s, k, vs in self.eval_many(flat, st):
@@ -1301,6 +1301,40 @@ class Executor:
         if isinstance(node, ast.Call) and isinstance(node.func, ast.Attribute) and node.func.attr == "keys" and not node.args:
             return node.func.value
         return None
+
+    def _dict_unpack(self, node, st):
+        """{**a, **b, k: v}: later entries win; every unpacked operand must be a dict"""
+        outs = []
+        for s, k, vs in self.eval_many([x for kv in zip(node.keys, node.values) for x in kv if x is not None], st):
+            if k == "exc":
+                outs.append((s, k, vs))
+                continue
+            it = iter(vs)
+            has, get = z3.K(Val, False), T.NOGET
+            n_known = None
+            h = Heap(self, s)
+            for key_node in node.keys:
+                if key_node is None:
+                    src = as_val(next(it))
+                    bad = s.fork().assume(z3.Not(isinst(src, "dict")))
+                    if self.feasible(bad):
+                        outs.append((bad, "exc", self.new_obj(bad, K("TypeError"), "exc")))
+                    s.assume(isinst(src, "dict"))
+                    nh, ng = self.fresh("mh", T.ArrVB), self.fresh("mg", T.ArrVV)
+                    kk = z3.Const("kk", Val)
+                    sh, sg = h.arr("dhas")[src], h.arr("dget")[src]
+                    s.assume(T.forall([kk], nh[kk] == z3.Or(has[kk], sh[kk]), patterns=[nh[kk]]))
+                    s.assume(T.forall([kk], ng[kk] == z3.If(sh[kk], sg[kk], get[kk]), patterns=[ng[kk]]))
+                    has, get = nh, ng
+                else:
+                    kt, vt = self.val_of(next(it)), self.val_of(next(it))
+                    has, get = z3.Store(has, kt, True), z3.Store(get, kt, vt)
+            n = self.fresh("dl", T.I)
+            kk = z3.Const("kk", Val)
+            s.assume(n >= 0, (n == 0) == z3.Not(z3.Exists([kk], has[kk])))
+            o = self.new_dict(s, has, get, n, hint="dict")
+            outs.append((s, "val", sv_val(o)))
+        return outs
 
     def expr_BinOp(self, node, st):
         outs = []
